@@ -128,6 +128,9 @@ func vScript(kind, V, rounds int, seed uint32) []vScriptEv {
 			if kind == 2 && v == V-1 && r%3 != 0 {
 				continue
 			}
+			if kind == 6 && v == 0 && r%3 != 0 {
+				continue // 6 lagging-heavy: the HEAVIEST validator creates an event only every third round
+			}
 			ev := vScriptEv{creator: v, self: last[v]}
 			switch kind {
 			case 1:
@@ -600,6 +603,8 @@ func VerifH_FS_laggingV3() { verifFS(2, 3, 7, 1) }
 func VerifH_FS_forkV4()    { verifFS(3, 4, 8, 1) }
 func VerifH_FS_forkV3()    { verifFS(3, 3, 8, 1) }
 func VerifH_FS_lcgV3()     { verifFS(4, 3, 7, 7) }
+func VerifH_FS_lagheavyV3() { verifFS(6, 3, 10, 1) }
+func VerifH_FS_lagheavyV4() { verifFS(6, 4, 10, 1) }
 func VerifH_FS_tripleV3()  { verifFS(5, 3, 8, 1) }
 func VerifH_FS_tripleV4()  { verifFS(5, 4, 7, 1) }
 func VerifH_FS_meshV4()    { verifFS(0, 4, 5, 1) }
